@@ -127,6 +127,9 @@ func renderDoc(sb *strings.Builder, j map[string]interface{}, ws int) {
 				sp()
 			}
 			m := rec(e)
+			if sstr(m["k"]) == "~comma" {
+				continue // nothing where a member must stand: the separating comma is all there is
+			}
 			sb.WriteString(strconv.Quote(sstr(m["k"])))
 			sb.WriteByte(':')
 			sp()
